@@ -29,6 +29,11 @@ nx = lambda a, b, l: l.startswith('exc:')
 
 def check(run):
     R = run
+    R.rule('C06.shared', 'objects created once per class / per function definition (class-level attributes, parameter '
+           'defaults) are only read: no buffer, validator, poll object, header list or option dict is shared between '
+           'connections', 2)
+    from .common import shared_state
+    shared_state(R, 'C06.shared')
     R.rule('C06.wiring', 'option name -> constructor slot -> field -> zlib constructor argument / reset-flag test, '
                          'for the four negotiated parameters', 4)
     R.rule('C06.raw', 'both zlib objects are raw deflate (negative wbits) depending on the negotiated field; '
@@ -52,6 +57,8 @@ def check(run):
         C05.route(R)
         C05.track(R)
     wiring(R)
+    from .common import stale_refs
+    stale_refs(R, 'C06.wiring')
     raw(R)
     rng(R)
     tail(R)
@@ -59,6 +66,8 @@ def check(run):
     rsv1_in(R)
     fail(R)
     activate(R)
+    from . import C01
+    C01.alias(R, RID='C06.tail')     # inflate input / output never alias the reused receive buffer
 
 
 def parse_ext(R):
